@@ -430,6 +430,15 @@ def ordering(check, prog):
         ok = g[0] == 'comp' and g[2][0] == 'attr' and g[2][2] == 'guess' and \
             g[3][0][1][0] == 'attr' and g[3][0][1][2] == 'parameters'
         ok = ok and bool(calls_in(rm[0][2][0], 'convert_to_map'))
+        # ... on every path: the result is always the scatterer rebuilt from the
+        # read map (derived priors made of constants only have no free parameter
+        # but must still be collapsed to their value)
+        sc_ = sym(fd.args.args[0].arg)
+        ok = ok and len(res.returns) == 1 and v[0] == 'call' and \
+            v[1] == ('attr', sc_, 'from_parameters') and tuple(v[2]) == (rm[0],) and \
+            rm[0][2][0][0] == 'call' and len(rm[0][2][0][2]) >= 1 and \
+            rm[0][2][0][2][-1] == ('attr', sc_, 'parameters') if rm[0][2][0][0] == 'call' \
+            else False
     check.require(ok, 'G3-guesses-in-mapper-order', 'validate_scatterer',
                   "priors are replaced by their guess, in the mapper's parameter "
                   'order', prog.loc(q, fd), fail_detail='returns %s' % show(v)[:200])
